@@ -56,6 +56,9 @@ func judge(data string, ml, ii bool) (sig, what, class string, nodes int) {
 		return "accepted-overdeep-line", fmt.Sprintf("decoder accepted an over-deep line %d without AllowInvalidIndents", model.Line), "viol", 0
 	}
 	nodes = ref.Count(model.Roots)
+	if sh := gx.Shared(doc.Nodes()); sh != "" {
+		return "node-object-shared", "every line must become its own node: " + sh, "viol", nodes
+	}
 	got := gx.Dump(doc.Nodes(), false)
 	want := gx.DumpRef(model.Roots)
 	if got != want {
@@ -172,6 +175,11 @@ func hasLevel10(d string) bool {
 	return false
 }
 
+// lines of every specialised node kind (and some plain ones) with typical values
+var twiceLines = []string{"SEX M", "SEX F", "SEX U", "SEX", "NAME a /b/", "NAME", "DATE 1 Jan 2000", "DATE", "BIRT", "BIRT Y", "DEAT", "BAPM", "BURI", "EVEN x",
+	"RESI", "PLAC a,b", "_UID 0123456789ABCDEF0123456789ABCDEF", "_FID x", "_FSFTID x", "FORM x", "LATI N1", "LONG W1", "MAP", "NICK x", "FONE x", "ROMN x", "SOUR x", "SOUR @S1@",
+	"TYPE x", "OCCU x", "NOTE", "NOTE v", "FAMS @F1@", "FAMC @F1@", "_X", "_X y"}
+
 var optCombos = [4][2]bool{{false, false}, {true, false}, {false, true}, {true, true}}
 
 func runInputX(r *vlib.Rec, data string) { runInput(r, data) }
@@ -179,6 +187,8 @@ func runInputX(r *vlib.Rec, data string) { runInput(r, data) }
 func runInput(r *vlib.Rec, data string) {
 	for _, o := range optCombos {
 		r.Eval()
+		ml, ii := o[0], o[1]
+		r.EnterF(func() interface{} { return mkCase(data, ml, ii) })
 		sig, what, class, nodes := judge(data, o[0], o[1])
 		r.Count("outcome:" + class)
 		if class == "accept" && nodes >= 2 {
@@ -240,6 +250,35 @@ func run(tier, unit string, r *vlib.Rec) {
 				}
 			}
 		}
+	case "chain": // chain: a single path down to depth d, then a line at every level <= d+1
+		for d := lo; d < hi; d++ {
+			var sb strings.Builder
+			for l := int64(0); l <= d; l++ {
+				fmt.Fprintf(&sb, "%d NOTE d%d\n", l, l)
+			}
+			for back := int64(0); back <= d+1; back++ {
+				r.Count("chain")
+				if d >= 10 {
+					r.Count("chain>=10")
+				}
+				runInput(r, sb.String()+fmt.Sprintf("%d NAME back\n", back))
+			}
+		}
+	case "twice": // the same specialised line twice in one record with different substructure (nodes must not be shared)
+		for k := lo; k < hi; k++ {
+			ln := twiceLines[k]
+			for _, shape := range []string{
+				"0 @I1@ INDI\n1 %[1]s\n2 NOTE a\n1 %[1]s\n",
+				"0 @I1@ INDI\n1 %[1]s\n1 %[1]s\n2 NOTE a\n",
+				"0 @I1@ INDI\n1 %[1]s\n2 NOTE a\n0 @I2@ INDI\n1 %[1]s\n2 NOTE b\n3 NOTE c\n",
+				"0 @I1@ INDI\n1 %[1]s\n2 %[1]s\n3 NOTE a\n1 NOTE b\n",
+				"0 %[1]s\n1 NOTE a\n0 %[1]s\n",
+				"0 @I1@ INDI\n1 %[1]s\n2 CONT x\n1 %[1]s\n",
+			} {
+				r.Count("twice")
+				runInput(r, fmt.Sprintf(shape, ln))
+			}
+		}
 	case "bytes": // bytes:<L>:<bom>
 		L, _ := strconv.Atoi(p[1])
 		bom := p[2] == "1"
@@ -288,6 +327,8 @@ func plan(tier string) []string {
 		}
 		out = append(out, vlib.Chunks(fmt.Sprintf("walk:%d:%d", x.n, x.dev), gen.Pow(A, x.n), size)...)
 	}
+	out = append(out, vlib.Chunks("chain", 41, 4)...)
+	out = append(out, vlib.Chunks("twice", int64(len(twiceLines)), 6)...)
 	for L := 0; L <= maxL; L++ {
 		for _, bom := range []string{"0", "1"} {
 			if bom == "1" && L > maxL-1 {
@@ -330,7 +371,7 @@ func main() {
 		Run:    run,
 		Replay: replay,
 		Required: func(string) []string {
-			req := []string{"outcome:accept", "outcome:both-reject", "bytes", "bom"}
+			req := []string{"outcome:accept", "outcome:both-reject", "bytes", "bom", "chain", "chain>=10", "twice"}
 			for _, d := range gen.LineDeviations {
 				req = append(req, "dev:"+d.Name)
 			}
